@@ -178,6 +178,10 @@ def leg_emit(rnd, rundir, n):
             ws = [rnd.randint(1, 4) for _ in range(rnd.randint(0, 12))]
             arg = text_for(ws, rnd)
             p = jsonrpc.ServerProxy(peer.url(), config=cfg, version=rnd.choice([1.0, 2.0]))
+            if rnd.random() < 0.4:
+                # the configuration object is changed once the proxy exists (it is shared and mutable): the content
+                # type declared is the configured one at the time of the request
+                cfg.content_type = rnd.choice(["application/json-rpc", "application/json", "application/jsonrequest", "text/x-verif"])
             n0 = len(peer.requests)
             try:
                 style = rnd.choice(["call", "notify", "batch", "rawbody"])
@@ -246,31 +250,33 @@ def leg_emit(rnd, rundir, n):
         cfgc = jsonrpclib.config.Config(content_type=rnd.choice(["application/json-rpc", "application/json"]))
         cgi = CGIJSONRPCRequestHandler(config=cfgc)
         cgi.register_function(lambda x: x, "echo")
-        ws = [rnd.randint(1, 4) for _ in range(rnd.randint(0, 12))]
-        arg = text_for(ws, rnd)
-        req = json.dumps({"jsonrpc": "2.0", "id": 1, "method": "echo", "params": [arg]}, ensure_ascii=rnd.random() < 0.5)
-        buf = io.BytesIO()
-        old = sys.stdout
-        wrapper = io.TextIOWrapper(buf, encoding="utf-8", newline="\n", write_through=True)
-        sys.stdout = wrapper
-        try:
-            cgi.handle_jsonrpc(req)
-            wrapper.flush()
-            err = ""
-        except BaseException as e:  # noqa
-            err = "%s: %s" % (type(e).__name__, str(e)[:80])
-        finally:
-            sys.stdout = old
-        raw = buf.getvalue().replace(b"\r\n", b"\n")
-        wrapper.detach()
-        head, _, out = raw.partition(b"\n\n")
-        hd = {}
-        for l in head.split(b"\n"):
-            if b":" in l:
-                nm, v = l.split(b":", 1)
-                hd.setdefault(nm.decode().lower(), []).append(v.strip().decode())
-        recs.append({"leg": "emit", "who": "cgi", "clen": hd.get("content-length", ["?"]), "ctype": hd.get("content-type", ["?"]),
-                     "outlen": str(len(out)), "cfgtype": cfgc.content_type, "err": err, "nreq": 1})
+        # (one handler object answers one to three requests, each on its own standard output)
+        for _use in range(rnd.randint(1, 3)):
+            ws = [rnd.randint(1, 4) for _ in range(rnd.randint(0, 12))]
+            arg = text_for(ws, rnd)
+            req = json.dumps({"jsonrpc": "2.0", "id": 1, "method": "echo", "params": [arg]}, ensure_ascii=rnd.random() < 0.5)
+            buf = io.BytesIO()
+            old = sys.stdout
+            wrapper = io.TextIOWrapper(buf, encoding="utf-8", newline="\n", write_through=True)
+            sys.stdout = wrapper
+            try:
+                cgi.handle_jsonrpc(req)
+                wrapper.flush()
+                err = ""
+            except BaseException as e:  # noqa
+                err = "%s: %s" % (type(e).__name__, str(e)[:80])
+            finally:
+                sys.stdout = old
+            raw = buf.getvalue().replace(b"\r\n", b"\n")
+            wrapper.detach()
+            head, _, out = raw.partition(b"\n\n")
+            hd = {}
+            for l in head.split(b"\n"):
+                if b":" in l:
+                    nm, v = l.split(b":", 1)
+                    hd.setdefault(nm.decode().lower(), []).append(v.strip().decode())
+            recs.append({"leg": "emit", "who": "cgi", "clen": hd.get("content-length", ["?"]), "ctype": hd.get("content-type", ["?"]),
+                         "outlen": str(len(out)), "cfgtype": cfgc.content_type, "err": err, "nreq": 1})
     return recs
 
 
